@@ -139,14 +139,24 @@ NewProvRec(st, cls, args) ==
     [cls |-> cls, args |-> args,
      bases |-> SelectSeq(args, LAMBDA x : x \notin ImplC(st.cbases, cls))
                \o <<ClsRef(cls)>>]
+\* Provides(cls, *args): a cache hit is returned as it is.  Shipped: every
+\* shared declaration re-derives its bases whenever its class specification
+\* changes (ProvidesClass.changed, see Refresh below), so a hit always says
+\* what is asked for.  PinnedC01: declarations are never refreshed (as at the
+\* pin), a hit may have left out an interface the class no longer implements.
 ProvidesGet(st, cls, args) ==
     LET hit == {r \in pcache : r.cls = cls /\ r.args = args}
-    IN IF hit # {} /\ (PinnedC01 \/
-                       \A k \in DOMAIN args :
-                           args[k] \in ProvRecProvided(st.cbases,
-                                                       CHOOSE r \in hit : TRUE))
-          THEN CHOOSE r \in hit : TRUE
-          ELSE NewProvRec(st, cls, args)
+    IN IF hit # {} THEN CHOOSE r \in hit : TRUE
+       ELSE NewProvRec(st, cls, args)
+
+\* ProvidesClass.changed: re-strip the declared interfaces against what the
+\* class implements NOW
+Refresh(st, rec) ==
+    IF rec = NoProv \/ PinnedC01 THEN rec
+    ELSE NewProvRec(st, rec.cls, rec.args)
+RefreshAll(st) ==
+    /\ prov' = [o \in Objs |-> Refresh(st, prov[o])]
+    /\ pcache' = {Refresh(st, r) : r \in pcache}
 
 DirectOf(rec) == IF rec = NoProv THEN <<>>
                  ELSE SubSeq(rec.bases, 1, Len(rec.bases) - 1)
@@ -202,7 +212,8 @@ ClassImplements(c, ifs) ==
        /\ gMay' = [gMay EXCEPT ![c] = @ \cup SeqSet(ifs)]
        /\ gMust' = [gMust EXCEPT ![c] =
                        @ \cup {x \in SeqSet(ifs) : x \notin MayCls(c)}]
-       /\ UNCHANGED <<prov, pcache, cprov, gInh, oMust, oMay>>
+       /\ RefreshAll(st)
+       /\ UNCHANGED <<cprov, gInh, oMust, oMay>>
 
 ClassImplementsFirst(c, i) ==
     LET st == ClassImplementsFirstSt(CurSt, c, i)
@@ -210,7 +221,8 @@ ClassImplementsFirst(c, i) ==
        /\ supercache' = DropSuper(st.cbases, {c})
        /\ gMay' = [gMay EXCEPT ![c] = @ \cup {i}]
        /\ gMust' = [gMust EXCEPT ![c] = @ \cup ({i} \ MayCls(c))]
-       /\ UNCHANGED <<prov, pcache, cprov, gInh, oMust, oMay>>
+       /\ RefreshAll(st)
+       /\ UNCHANGED <<cprov, gInh, oMust, oMay>>
 
 ClassImplementsOnly(c, ifs) ==
     LET st == ClassImplementsOnlySt(CurSt, c, ifs)
@@ -219,7 +231,8 @@ ClassImplementsOnly(c, ifs) ==
        /\ gMay' = [gMay EXCEPT ![c] = SeqSet(ifs)]
        /\ gMust' = [gMust EXCEPT ![c] = SeqSet(ifs)]
        /\ gInh' = [gInh EXCEPT ![c] = FALSE]
-       /\ UNCHANGED <<prov, pcache, cprov, oMust, oMay>>
+       /\ RefreshAll(st)
+       /\ UNCHANGED <<cprov, oMust, oMay>>
 
 \* directlyProvides(o, *ifs) on an instance
 SetProvides(o, args, newMay, newMustCand) ==
